@@ -12,7 +12,7 @@ LEVEL = 'exploration'
 RULE = ('Hypothesis draws a client kind, a transport list, a connection URL (scheme http / https / '
         'ws / wss, host with or without port, path, query with repeated and percent-encoded '
         'parameters), an engineio_path, heartbeat settings, an application send sequence (text, '
-        'JSON, binary) interleaved with server sends, and a script applied at the client I/O '
+        'JSON, binary) interleaved with server sends (also from the connect handler of the server, travelling with OPEN), and a script applied at the client I/O '
         'boundary in front of the real server: PING frames / packets with arbitrary data, NOOPs '
         'and unknown packet types injected, the probe answered wrongly or not at all, silence from '
         'a drawn point on (WebSocket: nothing more received; polling: requests hang); the judged '
